@@ -704,10 +704,15 @@ class Tr:
         captured = [n for n in env if n not in state]
         sty = " × ".join(LEAN_TYPE[env[n]] for n in state) or "Unit"
         stpat = "(" + ", ".join(state) + ")" if len(state) > 1 else (state[0] if state else "_st")
-        item_ty = {"ConList": "Con", "PairList": "Pair", "VerList": "Ver", "VerListList": "VerList", "StrList": "Str"}[ity]
+        item_ty = {"ConList": "Con", "PairList": "Pair", "VerList": "Ver", "VerListList": "VerList", "StrList": "Str",
+                   "Dict": "DictItem"}[ity]
         env_b = dict(env)
         pre = ""
-        if isinstance(s.target, ast.Tuple):
+        if isinstance(s.target, ast.Tuple) and item_ty == "DictItem":
+            for i, (e, vty) in enumerate(zip(s.target.elts, ("Str", "StrOpt"))):
+                env_b[e.id] = vty
+                pre += "let %s : %s := item.%d\n" % (e.id, LEAN_TYPE[vty], i + 1)
+        elif isinstance(s.target, ast.Tuple):
             for i, e in enumerate(s.target.elts):
                 vty = self.var_types.get(e.id, "Con")
                 env_b[e.id] = vty
